@@ -282,6 +282,7 @@ func first(a, _ []byte) []byte { return a }
 //@   inline
 
 //@ func (*node4).clear
+//@   opt noalloc
 //@   assigns SP ST B node.prefixLen node.childrenLen node4.keys pooled
 //@   requires n4 != nil
 //@   ensures[zero] Zero4(n4)
@@ -289,6 +290,7 @@ func first(a, _ []byte) []byte { return a }
 //@   ensures[frame] frame(n4)
 
 //@ func (*node16).clear
+//@   opt noalloc
 //@   assigns SP ST B node.prefixLen node.childrenLen node4.keys pooled
 //@   requires n16 != nil
 //@   ensures[zero] Zero16(n16)
@@ -296,6 +298,7 @@ func first(a, _ []byte) []byte { return a }
 //@   ensures[frame] frame(n16)
 
 //@ func (*node48).clear
+//@   opt noalloc
 //@   assigns SP ST B node.prefixLen node.childrenLen node4.keys pooled
 //@   requires n48 != nil
 //@   ensures[zero] Zero48(n48)
@@ -303,6 +306,7 @@ func first(a, _ []byte) []byte { return a }
 //@   ensures[frame] frame(n48)
 
 //@ func (*node256).clear
+//@   opt noalloc
 //@   assigns SP ST B node.prefixLen node.childrenLen node4.keys pooled
 //@   requires n256 != nil
 //@   ensures[zero] Zero256(n256)
@@ -337,7 +341,7 @@ func first(a, _ []byte) []byte { return a }
 
 //@ func (*node48).addChild
 //@   assigns SP ST B node.prefixLen node.childrenLen node4.keys pooled
-//@   ensures[allocs_nodes_only] forallref(o, implies(fresh(o), isNodeT(o)))
+//@   ensures[allocs_nodes_only] forallref(o, implies(fresh(o), isNodeT(o) || atype(o) == 1000))
 //@   requires n48 != nil && atype(n48) == typeid(node48) && Inv48(n48) && refIs(ref, n48, 2)
 //@   requires n48.keys[b] == 0 && okRef(child) && child.pointer != n48
 //@   ensures[view] forallp(x, 0, 256, lookP(*ref, x) == ite(x == b, child.pointer, old(lookP48(n48, x))) && lookT(*ref, x) == ite(x == b, child.tag, old(lookT48(n48, x))))
@@ -361,7 +365,7 @@ func first(a, _ []byte) []byte { return a }
 
 //@ func (*node16).addChild
 //@   assigns SP ST B node.prefixLen node.childrenLen node4.keys pooled
-//@   ensures[allocs_nodes_only] forallref(o, implies(fresh(o), isNodeT(o)))
+//@   ensures[allocs_nodes_only] forallref(o, implies(fresh(o), isNodeT(o) || atype(o) == 1000))
 //@   requires n16 != nil && atype(n16) == typeid(node16) && Inv16(n16) && refIs(ref, n16, 1)
 //@   requires lookP16(n16, b) == nil && okRef(child) && child.pointer != n16
 //@   ensures[view] forallp(x, 0, 256, lookP(*ref, x) == ite(x == b, child.pointer, old(lookP16(n16, x))) && lookT(*ref, x) == ite(x == b, child.tag, old(lookT16(n16, x))))
@@ -382,7 +386,7 @@ func first(a, _ []byte) []byte { return a }
 
 //@ func (*node4).addChild
 //@   assigns SP ST B node.prefixLen node.childrenLen node4.keys pooled
-//@   ensures[allocs_nodes_only] forallref(o, implies(fresh(o), isNodeT(o)))
+//@   ensures[allocs_nodes_only] forallref(o, implies(fresh(o), isNodeT(o) || atype(o) == 1000))
 //@   requires n4 != nil && atype(n4) == typeid(node4) && Inv4(n4) && refIs(ref, n4, 0)
 //@   requires lookP4(n4, b) == nil && okRef(child) && child.pointer != n4
 //@   ensures[view] forallp(x, 0, 256, lookP(*ref, x) == ite(x == b, child.pointer, old(lookP4(n4, x))) && lookT(*ref, x) == ite(x == b, child.tag, old(lookT4(n4, x))))
@@ -398,7 +402,7 @@ func first(a, _ []byte) []byte { return a }
 
 //@ func (*nodeRef).addChild
 //@   assigns SP ST B node.prefixLen node.childrenLen node4.keys pooled
-//@   ensures[allocs_nodes_only] forallref(o, implies(fresh(o), isNodeT(o)))
+//@   ensures[allocs_nodes_only] forallref(o, implies(fresh(o), isNodeT(o) || atype(o) == 1000))
 //@   requires typeOK(*ptr) && InvRef(*ptr) && slotOK(ptr)
 //@   requires lookP(*ptr, b) == nil && okRef(child) && child.pointer != (*ptr).pointer
 //@   ensures[view] forallp(x, 0, 256, lookP(*ptr, x) == ite(x == b, child.pointer, old(lookP(*ptr, x))) && lookT(*ptr, x) == ite(x == b, child.tag, old(lookT(*ptr, x))))
@@ -416,7 +420,7 @@ func first(a, _ []byte) []byte { return a }
 
 //@ func (*node256).deleteChild
 //@   assigns SP ST B node.prefixLen node.childrenLen node4.keys pooled
-//@   ensures[allocs_nodes_only] forallref(o, implies(fresh(o), isNodeT(o)))
+//@   ensures[allocs_nodes_only] forallref(o, implies(fresh(o), isNodeT(o) || atype(o) == 1000))
 //@   requires n256 != nil && atype(n256) == typeid(node256) && Inv256(n256) && refIs(ref, n256, 3)
 //@   requires n256.children[b].pointer != nil
 //@   ensures[view] forallp(x, 0, 256, lookP(*ref, x) == ite(x == b, nil, old(lookP256(n256, x))) && lookT(*ref, x) == ite(x == b, 0, old(lookT256(n256, x))))
@@ -444,7 +448,7 @@ func first(a, _ []byte) []byte { return a }
 
 //@ func (*node48).deleteChild
 //@   assigns SP ST B node.prefixLen node.childrenLen node4.keys pooled
-//@   ensures[allocs_nodes_only] forallref(o, implies(fresh(o), isNodeT(o)))
+//@   ensures[allocs_nodes_only] forallref(o, implies(fresh(o), isNodeT(o) || atype(o) == 1000))
 //@   requires n48 != nil && atype(n48) == typeid(node48) && Inv48(n48) && refIs(ref, n48, 2)
 //@   requires n48.keys[b] != 0
 //@   ensures[view] forallp(x, 0, 256, lookP(*ref, x) == ite(x == b, nil, old(lookP48(n48, x))) && lookT(*ref, x) == ite(x == b, 0, old(lookT48(n48, x))))
@@ -471,7 +475,7 @@ func first(a, _ []byte) []byte { return a }
 
 //@ func (*node16).deleteChild
 //@   assigns SP ST B node.prefixLen node.childrenLen node4.keys pooled
-//@   ensures[allocs_nodes_only] forallref(o, implies(fresh(o), isNodeT(o)))
+//@   ensures[allocs_nodes_only] forallref(o, implies(fresh(o), isNodeT(o) || atype(o) == 1000))
 //@   requires n16 != nil && atype(n16) == typeid(node16) && Inv16(n16) && refIs(ref, n16, 1)
 //@   requires lookP16(n16, b) != nil
 //@   ensures[view] forallp(x, 0, 256, lookP(*ref, x) == ite(x == b, nil, old(lookP16(n16, x))) && lookT(*ref, x) == ite(x == b, 0, old(lookT16(n16, x))))
@@ -492,7 +496,7 @@ func first(a, _ []byte) []byte { return a }
 
 //@ func (*node4).deleteChild
 //@   assigns SP ST B node.prefixLen node.childrenLen node4.keys pooled
-//@   ensures[allocs_nodes_only] forallref(o, implies(fresh(o), isNodeT(o)))
+//@   ensures[allocs_nodes_only] forallref(o, implies(fresh(o), isNodeT(o) || atype(o) == 1000))
 //@   requires n4 != nil && atype(n4) == typeid(node4) && Inv4(n4) && refIs(ref, n4, 0)
 //@   requires has4(n4, b) && n4.childrenLen >= 2
 //@   requires forall(i, 0, 4, implies(i < n4.childrenLen, n4.children[i].pointer != n4))
@@ -519,7 +523,7 @@ func first(a, _ []byte) []byte { return a }
 
 //@ func (*nodeRef).deleteChild
 //@   assigns SP ST B node.prefixLen node.childrenLen node4.keys pooled
-//@   ensures[allocs_nodes_only] forallref(o, implies(fresh(o), isNodeT(o)))
+//@   ensures[allocs_nodes_only] forallref(o, implies(fresh(o), isNodeT(o) || atype(o) == 1000))
 //@   requires typeOK(*ptr) && InvRef(*ptr) && slotOK(ptr)
 //@   requires lookP(*ptr, b) != nil
 //@   requires implies((*ptr).tag == 0, as(node4, (*ptr).pointer).childrenLen >= 2 && forall(i, 0, 4, implies(i < as(node4, (*ptr).pointer).childrenLen, as(node4, (*ptr).pointer).children[i].pointer != (*ptr).pointer)))
